@@ -246,11 +246,16 @@ pub fn lex_plural_digit(src: &[char]) -> Option<FoundToken> {
     if l > i && src[i] == 's' {
         i += 1;
 
-        // `os.example` is a hostname, whatever the case of its letters (the hostname lexer
-        // comes later and would never see it).
-        let starts_hostname = l > i + 1 && src[i] == '.' && src[i + 1].is_ascii_alphanumeric();
+        // `os.example`, `ps://x` and `as@example.org` are a hostname, a URL and an e-mail
+        // address whatever the case of their letters; their lexers come later and would never
+        // see them.
+        let starts_longer_token = || {
+            lex_url(src).is_some()
+                || lex_email_address(src).is_some()
+                || lex_hostname_token(src).is_some()
+        };
 
-        if (l == i || !src[i].is_ascii_alphanumeric()) && !starts_hostname {
+        if (l == i || !src[i].is_ascii_alphanumeric()) && !starts_longer_token() {
             return Some(FoundToken {
                 token: TokenKind::Word(None),
                 next_index: i,
